@@ -95,6 +95,8 @@ pub struct Failure {
 pub struct Stats {
     pub evaluations: u64,
     pub nontrivial: HashSet<u64>,
+    /// non-trivial cases counted without hashing (exhaustive enumerations: distinct by index)
+    pub nontrivial_direct: u64,
     pub classes: BTreeMap<String, u64>,
     pub skipped: BTreeMap<String, u64>,
     pub known_hits: BTreeMap<String, u64>,
@@ -109,6 +111,7 @@ impl Stats {
     pub fn merge(&mut self, o: Stats) {
         self.evaluations += o.evaluations;
         self.nontrivial.extend(o.nontrivial);
+        self.nontrivial_direct += o.nontrivial_direct;
         for (k, v) in o.classes {
             *self.classes.entry(k).or_default() += v;
         }
@@ -275,6 +278,10 @@ where
     }
 
     fn record(&self, st: &mut Stats, case: &C, out: &Outcome, known: Option<&'static str>) {
+        self.record2(st, case, out, known, false)
+    }
+
+    fn record2(&self, st: &mut Stats, case: &C, out: &Outcome, known: Option<&'static str>, by_index: bool) {
         st.evaluations += 1;
         *st.per_driver.entry(self.name.to_string()).or_default() += 1;
         if let Some(k) = known {
@@ -289,7 +296,13 @@ where
                 *st.skipped.entry(format!("{}:{}", self.name, why)).or_default() += 1;
             }
             Verdict::Pass => {
-                if out.nontrivial {
+                if out.nontrivial && by_index {
+                    st.nontrivial_direct += 1;
+                    let n = st.per_driver[self.name];
+                    if st.samples.len() < 6 && is_sample_point(n) {
+                        st.samples.push(json!({"driver": self.name, "case": serde_json::to_value(case).unwrap_or(Value::Null)}));
+                    }
+                } else if out.nontrivial {
                     let js = serde_json::to_string(case).unwrap_or_default();
                     let h = hash_of(&(self.name, &js));
                     let n = st.per_driver[self.name];
@@ -347,6 +360,7 @@ where
         mark: bool,
     ) {
         let threads = ctx.threads.max(1) as u64;
+        #[allow(non_snake_case)]
         let results: Vec<(Stats, Option<(u64, C, String)>)> = std::thread::scope(|s| {
             let mut hs = vec![];
             for t in 0..threads {
@@ -355,22 +369,21 @@ where
                     .spawn_scoped(s, move || {
                         let mut local = Stats::default();
                         let mut first_fail: Option<(u64, C, String)> = None;
-                        let mut i = t;
-                        while i < total {
-                            if let Some(c) = decode(i) {
-                                let (out, known) = self.eval(&c);
-                                self.record(&mut local, &c, &out, known);
-                                if let Verdict::Fail(msg) = out.verdict {
-                                    if first_fail.is_none() {
+                        let BLOCK: u64 = (total / (threads * 8)).clamp(1, 2048);
+                        let mut block = t;
+                        'outer: while block * BLOCK < total {
+                            let end = ((block + 1) * BLOCK).min(total);
+                            for i in block * BLOCK..end {
+                                if let Some(c) = decode(i) {
+                                    let (out, known) = self.eval(&c);
+                                    self.record2(&mut local, &c, &out, known, mark);
+                                    if let Verdict::Fail(msg) = out.verdict {
                                         first_fail = Some((i, c, msg));
-                                    }
-                                    // keep going a little, but do not flood
-                                    if local.evaluations > 0 && first_fail.is_some() {
-                                        break;
+                                        break 'outer;
                                     }
                                 }
                             }
-                            i += threads;
+                            block += threads;
                         }
                         (local, first_fail)
                     })
@@ -573,7 +586,7 @@ pub fn finish(
     let exhaustive = !st.exhaustive_drivers.is_empty() && st.exhaustive_drivers.len() == st.per_driver.len();
     let mut coverage = serde_json::Map::new();
     coverage.insert("evaluations".into(), json!(st.evaluations));
-    coverage.insert("distinct_nontrivial".into(), json!(st.nontrivial.len()));
+    coverage.insert("distinct_nontrivial".into(), json!(st.nontrivial.len() as u64 + st.nontrivial_direct));
     coverage.insert("rule".into(), json!(info.rule));
     coverage.insert("samples".into(), json!(st.samples));
     coverage.insert("exhaustive".into(), json!(exhaustive));
@@ -608,7 +621,7 @@ pub fn finish(
         ctx.tier.name(),
         ctx.seed,
         st.evaluations,
-        st.nontrivial.len(),
+        st.nontrivial.len() as u64 + st.nontrivial_direct,
         st.skipped.values().sum::<u64>(),
         st.known_hits.values().sum::<u64>(),
         violations,
